@@ -10,9 +10,16 @@ from __future__ import annotations
 
 import ast
 import copy
+import importlib.util
 import os
 
 from py2gallina import HEADER, Kernel, Unsupported, find_function, translate_kernel
+
+# the translator subset of kernel K4 (for-loop with one accumulator, isinstance against a class
+# imported from the expected module) is reused: both kernels translate the same rule
+_spec = importlib.util.spec_from_file_location("vk_k4_alias_for_k6a", os.path.join(os.path.dirname(os.path.abspath(__file__)), "k4_alias.py"))
+_k4 = importlib.util.module_from_spec(_spec)
+_spec.loader.exec_module(_k4)
 
 NAME = "K6A"
 REPO = os.environ.get("VERIF_REPO", "/repo")
@@ -74,11 +81,18 @@ def gen() -> str:
     goc = next((n for n in cls.body if isinstance(n, ast.FunctionDef) and n.name == "get_owner_config"), None)
     if goc is None or "return self.__owner_builder.get_config()" not in ast.unparse(goc):
         raise Unsupported("Instance.get_owner_config changed")
-    k = Kernel(func="schema_alias", coq_name="schema_alias", params=["a_metadata", "a_cfg_aliases", "a_fname"],
-               abstr={"self.metadata": "a_metadata", "self.get_owner_config().aliases": "a_cfg_aliases",
-                      "self.name": "a_fname"})
+    # Instance.annotations is the __metadata__ of an Annotated field type (else the empty default)
+    post = next((n for n in cls.body if isinstance(n, ast.FunctionDef) and n.name == "__post_init__"), None)
+    if post is None or "self.annotations = getattr(self.type, '__metadata__', [])" not in ast.unparse(post):
+        raise Unsupported("Instance.annotations is no longer the Annotated metadata of the field type")
+    k = Kernel(func="schema_alias", coq_name="schema_alias", params=["a_metadata", "a_annotations", "a_cfg_aliases", "a_fname"],
+               abstr={"self.metadata": "a_metadata", "self.annotations": "a_annotations",
+                      "self.get_owner_config().aliases": "a_cfg_aliases", "self.name": "a_fname"})
+    # isinstance(annotation, Alias) is checked against the imports of schema.py, not of the sliced module
+    mod2.body = [n for n in module.body if isinstance(n, (ast.Import, ast.ImportFrom))] + mod2.body
     text = HEADER.format(src=SRC_REL + " (Instance.alias)")
-    text += translate_kernel(src, k, mod2)
+    text += "From Verif Require Import PyK_alias.\n\n"
+    text += translate_kernel(src, k, mod2, translator=_k4.AliasTranslator)
     return text
 
 
